@@ -8,7 +8,7 @@ ALSO = {  # seeded change -> other checks that are expected to see it
     "C19-B": ["C10"], "C04-B": ["C10"], "C04-D": ["C10"], "C13-D": ["C15"], "C19-A": ["C09"], "C02-A": ["C09"],
     "C06-B": ["C09"], "C03-D": ["C02"], "C08-A": ["C17"], "C14-B": ["C13"],
     "C04-F": ["C10"], "C15-D": ["C14"], "C06-F": ["C04"], "C15-E": ["C14"], "C15-F": ["C13"], "C13-E": ["C15"], "C19-E": ["C10"],
-    "C10-G": ["C04"], "C07-H": ["C17"], "C04-H": ["C10"], "C16-H": ["C09"], "C19-G": ["C09"], "C19-H": ["C09"], "C13-G": ["C15"], "C12-G": ["C11"], "C04-G": ["C06"], "C06-G": ["C04"], "C02-H": ["C09"], "C15-G": ["C14"], "C14-H": ["C13"],
+    "C10-G": ["C04"], "C07-H": ["C17"], "C04-H": ["C10"], "C16-H": ["C09"], "C19-G": ["C09"], "C19-H": ["C09"], "C13-G": ["C15"], "C04-G": ["C06"], "C06-G": ["C04"], "C02-H": ["C09"], "C15-G": ["C14"], "C14-H": ["C13"],
 }
 
 def sh(cmd, cwd="/verif", timeout=900):
